@@ -52,7 +52,7 @@ def esc(s):
 # ------------------------------------------------------------ surface trees
 def lvl(t):
     k = t[0]
-    if k in ("num", "based", "nan", "inf", "id", "hole", "bool", "str", "paren", "list", "struct"):
+    if k in ("num", "based", "nan", "inf", "id", "hole", "bool", "str", "interp", "paren", "list", "struct"):
         return 16
     if k in ("call", "field"):
         return 15
@@ -96,6 +96,18 @@ def toks(t):
         return [("True" if t[1] else "False", None)]
     if k == "str":
         return [("StringFixed", '"' + t[1] + '"')]
+    if k == "interp":
+        # ("interp", body0, [(tree, format specifiers or None, body after it), ...])
+        out = [("StringInterpolationStart", '"' + t[1] + "{")]
+        for i, (e, f, b) in enumerate(t[2]):
+            out += toks(e)
+            if f is not None:
+                out.append(("StringInterpolationSpecifiers", f))
+            if i + 1 < len(t[2]):
+                out.append(("StringInterpolationMiddle", "}" + b + "{"))
+            else:
+                out.append(("StringInterpolationEnd", "}" + b + '"'))
+        return out
     if k == "paren":
         return [("LeftParen", None)] + toks(t[1]) + [("RightParen", None)]
     if k == "call":
@@ -189,6 +201,17 @@ def sexpr(t):
     if k == "str":
         body = unescape_numbat(t[1])
         return '(str "%s")' % esc(body) if body != "" else '(str "")'
+    if k == "interp":
+        parts = []
+        b0 = unescape_numbat(t[1])
+        if b0 != "":
+            parts.append('"%s"' % esc(b0))
+        for e, f, b in t[2]:
+            parts.append("(interp %s%s)" % (sexpr(e), "" if f is None else ' "%s"' % esc(f)))
+            bb = unescape_numbat(b)
+            if bb != "":
+                parts.append('"%s"' % esc(bb))
+        return "(str%s)" % "".join(" " + x for x in parts)
     if k == "paren":
         return sexpr(t[1])
     if k == "call":
@@ -262,6 +285,15 @@ def gen_tree(rng, depth, extra=0.05, lists=True):
             return ("str", rng.choice(STRINGS))
         r = rng.random()
         F = lambda t, k: fit(t, k, rng, extra)
+        if r < 0.03:
+            # an interpolated string; a struct literal cannot be written inside the braces
+            items = []
+            for _ in range(rng.choice([1, 1, 2, 3])):
+                e = g(d - 2)
+                if any(kd in ("LeftCurly",) for kd, _ in toks(e)):
+                    e = ("id", rng.choice(IDENTS))
+                items.append((e, rng.choice([None, None, ":.2f", ":>10", ":", ":x", ": 5 ", ":e"]), rng.choice(STRINGS)))
+            return ("interp", rng.choice(STRINGS), items)
         if r < 0.06:
             return ("paren", g(d - 1))
         if r < 0.14:
@@ -345,6 +377,8 @@ def render(tokens, rng, tight=0.3, unicode_ops=0.4):
             # a field access must be written `.name`; keep `2 .x` apart from the number
             if kind == "Identifier" and pk == "Period":
                 omit = True
+            elif pk == "StringInterpolationSpecifiers":
+                omit = True      # the specifiers run up to the closing brace, blanks included
             elif kind == "Period" and pk in ("Number", "IntegerWithBase"):
                 omit = False
             if not omit:
